@@ -62,22 +62,29 @@ func (verifXorCoder) Encode(shards [][]byte) error {
 	}
 	return nil
 }
-func (verifXorCoder) ReconstructData(shards [][]byte) error {
-	for m := 0; m < 2; m++ {
-		if shards[m] != nil {
-			continue
-		}
-		o := shards[1-m]
-		if o == nil || shards[2] == nil {
-			return errors.New("too few shards")
-		}
-		shards[m] = make([]byte, len(o))
-		for i := range o {
-			shards[m][i] = o[i] ^ shards[2][i]
+func (verifXorCoder) fill(shards [][]byte, upTo int) error {
+	missing := -1
+	for i := 0; i < 3; i++ {
+		if len(shards[i]) == 0 {
+			if missing >= 0 {
+				return errors.New("too few shards")
+			}
+			missing = i
 		}
 	}
+	if missing < 0 || missing >= upTo {
+		return nil
+	}
+	a, b := shards[(missing+1)%3], shards[(missing+2)%3]
+	out := make([]byte, len(a))
+	for i := range a {
+		out[i] = a[i] ^ b[i]
+	}
+	shards[missing] = out
 	return nil
 }
+func (x verifXorCoder) ReconstructData(shards [][]byte) error { return x.fill(shards, 2) }
+func (x verifXorCoder) Reconstruct(shards [][]byte) error     { return x.fill(shards, 3) }
 
 func verifStubSum256(data []byte) [32]byte {
 	var out [32]byte
